@@ -38,6 +38,8 @@ EXTRA = [  # (derive list, item, must compile)
     ("PartialEq, Eq, Hash", "pub struct X { pub id: u32, #[eq(ignore)] pub w: NE }", True),
     ("PartialEq, Eq, Hash", "pub struct X { pub id: u32, #[hash(key = key_eq(&$))] #[eq(key = key_ne(&$))] pub w: u8 }", False),
     ("PartialEq, Eq, Hash", "pub struct X { pub id: u32, #[hash(by = hby)] #[eq(key = key_eq(&$))] pub w: NE }", True),
+    # recorded finding: == goes through the more specific partial_ord key (a float), the Eq assertion only looks at the ord key
+    ("Ord, PartialOrd, Eq, PartialEq", "pub struct X(#[ord(key = $.to_bits())] #[partial_ord(key = $)] pub f64);", False),
 ]
 
 
